@@ -1,6 +1,7 @@
 import Cppcms.C01.ScgiProofs
 import Cppcms.C01.FcgiProofs
 import Cppcms.C01.HttpProofs3
+import Cppcms.C01.ScgiRoundtrip
 /-!
 # C01 — property theorems
 
@@ -67,6 +68,27 @@ sections of at most 16 KiB, oversized ones are either answered or closed). -/
 def segmentation_independent_http_unrestricted : Prop :=
   ∀ (lim : Limits) (cfg : HttpCfg) (hints : List Bool) (segs₁ segs₂ : Segs),
     segs₁.flatten = segs₂.flatten → httpRun lim cfg hints segs₁ = httpRun lim cfg hints segs₂
+
+/-- the three header-size limits of the front-ends, as regenerated from the source, are the 16 KiB of the
+well-formedness predicates (`WFScgi.size`, FastCGI PARAMS accumulation, HTTP header section): a changed
+constant in the source breaks this theorem -/
+theorem limits_admit_wf :
+    Gen.httpHeaderCap = 16384 ∧ Gen.httpReadCap = 16384 ∧ Gen.paramsLimit = 16384 ∧
+    Gen.scgiLenBad 16384 = false ∧ Gen.scgiLenBad 16385 = true ∧ Gen.scgiFirstRead = 16 := by decide
+
+/-- **SCGI round trip**, any segmentation: a well-formed request (`WFScgi`: C strings, header block
+≤ 16384 bytes, netstring longer than the 16 eager bytes) encoded by the peer (`encScgi`: decimal length,
+`:`, `name NUL value NUL`…, `,`, body) is delivered as exactly that environment (same pairs, same
+order) and that body stream; the rest is the request layer's function of the two. -/
+theorem scgi_roundtrip (lim : Limits) (hb : 0 < lim.bufSize) (pairs : List (Bytes × Bytes)) (body : Bytes)
+    (hw : WFScgi pairs) (segs : Segs) (h : segs.flatten = encScgi pairs body) :
+    scgiConn lim segs = [(reqOutcome lim (Head.ofEnv (Env.empty.addAll pairs)) body).1] := by
+  rw [scgiConn_eq_flat lim hb, h]
+  exact scgiFlat_roundtrip lim pairs body hw
+
+/-- non-vacuity of `WFScgi`: a small POST request -/
+example : WFScgi [([67, 79, 78, 84, 69, 78, 84, 95, 76, 69, 78, 71, 84, 72], [51]), ([83, 67, 82, 73, 80, 84, 95, 78, 65, 77, 69], [47, 115])] :=
+  ⟨by decide, by decide, by decide⟩
 
 /-- non-vacuity: different segmentations of the same stream exist -/
 example : ([[1, 2], [3]] : Segs).flatten = ([[1], [], [2, 3]] : Segs).flatten := by decide
